@@ -313,8 +313,15 @@ def drive(ctx, sched, mon, P, passes_requested, opts):
             ctx.require(ob["is_exhausted"] is final, "C09.is_exhausted",
                         {"when": "after %s (action %d)" % (kind, count), "expected": final,
                          "got": ob["is_exhausted"]}, soft=True)
-        if count == storage_query_at:
-            query_storage(ctx, sched, "during")
+        if ctx.is_fatal("C11.raises"):
+            # the query can be made at every moment of the iteration
+            qd = query_storage(ctx, sched, "after action %d" % count)
+            if ctx.is_fatal("C11.underreport"):
+                for st in (RAM, DISK):
+                    if mon.touched[st]:
+                        ctx.require(qd.get(st) is True or qd.get(st) == 1, "C11.underreport",
+                                    {"storage": st, "when": "after action %d" % count,
+                                     "answer": repr(qd.get(st))}, soft=True)
         if target == 0 and kind == "EndForward":
             done = True
 
